@@ -7,6 +7,15 @@ let rec add n m =
   | O -> m
   | S p -> S (add p m)
 
+(** val sub : nat -> nat -> nat **)
+
+let rec sub n m =
+  match n with
+  | O -> n
+  | S k -> (match m with
+            | O -> n
+            | S l -> sub k l)
+
 (** val eqb : nat -> nat -> bool **)
 
 let rec eqb n m =
